@@ -19,17 +19,50 @@ func TestMain(m *testing.M) {
 const cycAssume = "shard reports obey the invariants a sidecar establishes (processSeries = sum of totals, headSeries >= sum of series, idle-since set iff no target, unknown health implies zero scrapes); max-process-series > 0 (the CLI rejects 0); Go map order is sampled by repeated execution, not enumerated"
 
 func recC01() *vkit.Recorder {
-	r := vkit.Rec("C01", "exploration", "rapid-generated single-cycle scenarios (options x discovered targets x per-shard health scripts and status reports), each executed several times on the real coordinator; plus 2-3 cycle histories on one coordinator instance (later cycles derived from the first: shard gone and sizes changed, configuration lost again, unrelated fleet, same again), every cycle judged on its own inputs; non-trivial = a target reported by >=2 in-sync shards, or a list change (new/removed target) on an in-sync shard (for histories: in a later cycle); distinct = digest of the scenario without its random seed")
+	r := vkit.Rec("C01", "exploration", "rapid-generated single-cycle scenarios (options x discovered targets x per-shard health scripts and status reports), each executed several times on the real coordinator (one in forty: a coordinator with a period, a healthy loaded shard whose report arrives late - while the cycle is applying its decisions, which a slow log sink owned by the harness stretches); plus 2-3 cycle histories on one coordinator instance (later cycles derived from the first: shard gone and sizes changed, configuration lost again, unrelated fleet, same again), every cycle judged on its own inputs; non-trivial = a target reported by >=2 in-sync shards, or a list change (new/removed target) on an in-sync shard (for histories: in a later cycle); distinct = digest of the scenario without its random seed")
 	r.Assume(cycAssume)
 	return r
 }
 
 func biasC01() Bias { b := DefaultBias(); b.AllowInvert = true; return b }
 
+// genLateAnswer: the coordinator has a period, one healthy loaded shard answers slowly - its report arrives while the
+// cycle is already applying its decisions (the log line about an unready shard in front of it takes a moment to be
+// written).  However late a report arrives, a shard that scrapes its targets keeps them.
+func genLateAnswer(t *rapid.T) *Scenario {
+	sc := &Scenario{Opt: Options{MaxProc: 1000, Max: 999999, PeriodMS: 4, ApplyPauseMS: rapid.SampledFrom([]int{6, 10}).Draw(t, "pause")}}
+	sc.Opt.IdleOn = rapid.Bool().Draw(t, "idleOn")
+	rs := ReplicaSpec{}
+	for i := rapid.IntRange(1, 2).Draw(t, "unreadyInFront"); i > 0; i-- {
+		rs.Shards = append(rs.Shards, ShardSpec{Ready: false, Idle: "fresh"})
+	}
+	slow := ShardSpec{Ready: true, StatusOK: true, Runtime1OK: true, HashEqual: true, Push: "ok", Runtime2OK: true, Idle: "fresh",
+		DelayMS: 2 + rapid.IntRange(0, 1000).Draw(t, "delay")%22}
+	n := rapid.IntRange(1, 3).Draw(t, "held")
+	for k := 0; k < n; k++ {
+		h := uint64(k + 1)
+		sc.Targets = append(sc.Targets, TargetSpec{Hash: h, Job: "j0", Explore: "good", Series: 50, Total: 50})
+		slow.Held = append(slow.Held, Held{Hash: h, Health: "up", Times: uint64(rapid.IntRange(3, 9).Draw(t, fmt.Sprintf("times%d", k))), Series: 50, Total: 50})
+	}
+	rs.Shards = append(rs.Shards, slow)
+	if rapid.Bool().Draw(t, "fastShardBehind") {
+		rs.Shards = append(rs.Shards, ShardSpec{Ready: true, StatusOK: true, Runtime1OK: true, HashEqual: true, Push: "ok", Runtime2OK: true, Idle: "fresh"})
+	}
+	sc.Replicas = []ReplicaSpec{rs}
+	sc.RandSeed = int64(rapid.IntRange(1, 1<<30).Draw(t, "randSeed"))
+	return sc
+}
+
 func TestC01(t *testing.T) {
 	rec := recC01()
 	rapid.Check(t, func(t *rapid.T) {
-		sc := Gen(t, biasC01())
+		var sc *Scenario
+		if la := rapid.IntRange(0, 39).Draw(t, "lateAnswer"); la == 17 || la == 23 {
+			sc = genLateAnswer(t)
+			rec.Class("late-answer-during-the-apply-phase")
+		} else {
+			sc = Gen(t, biasC01())
+		}
 		if msg := Check(rec, "TestC01", sc, JudgeC01, Execs()); msg != "" {
 			t.Fatalf("%s", msg)
 		}
